@@ -178,13 +178,44 @@ pub mod restrictions {
         }
     }
 
+    /// Checks a numeric value against the min/max facets, without narrowing it first.
+    fn check_bounds(value: i128, restrictions: &Restrictions) -> SoapResult<()> {
+        if let Some(min_inclusive) = restrictions.min_inclusive {
+            if value < i128::from(min_inclusive) {
+                return Err(SoapError::Restriction("minInclusive restriction not met".to_string()));
+            }
+        }
+
+        if let Some(max_inclusive) = restrictions.max_inclusive {
+            if i128::from(max_inclusive) < value {
+                return Err(SoapError::Restriction("maxInclusive restriction not met".to_string()));
+            }
+        }
+
+        if let Some(min_exclusive) = restrictions.min_exclusive {
+            if value <= i128::from(min_exclusive) {
+                return Err(SoapError::Restriction("minExclusive restriction not met".to_string()));
+            }
+        }
+
+        if let Some(max_exclusive) = restrictions.max_exclusive {
+            if i128::from(max_exclusive) <= value {
+                return Err(SoapError::Restriction("maxExclusive restriction not met".to_string()));
+            }
+        }
+
+        Ok(())
+    }
+
     macro_rules! impl_check_restrictions_for_int {
     ($($t:ty),*) => {
         $(
             impl CheckRestrictions for $t {
                 fn check_restrictions(&self, restrictions: Option<Rc<Restrictions>>) -> SoapResult<()> {
-                    let value = i32::try_from(*self).map_err(|e| SoapError::Restriction(e.to_string()))?;
-                    value.check_restrictions(restrictions)
+                    if let Some(restrictions) = restrictions {
+                        check_bounds(i128::from(*self), &restrictions)?;
+                    }
+                    Ok(())
                 }
             }
         )*
